@@ -145,9 +145,15 @@ func concatOp(sc *Scenario, r *engine.PRNG, cfg world.InstCfg, tn string, size i
 	if !ok1 || !ok2 {
 		return Op{}, false
 	}
+	foreign := a.Pat == "damaged"
 	a.Data += b.Data
 	a.VSeed = 0 // the bytes are no longer the encoding of one known value
 	a.Pat = "concat"
+	if foreign {
+		// one half came from a foreign writer (fields in another order): plenc may walk
+		// such a record differently from its framing, only model-free oracles apply
+		a.Pat = "damaged"
+	}
 	return a, true
 }
 
